@@ -146,10 +146,10 @@ CacheCellState(w, m, cs) == IF CacheCellId(w, m) = "nocell" THEN "nocell" ELSE C
 (***************************************************************************)
 (* Impl: name lookup of the routes                                         *)
 (***************************************************************************)
-\* Context.get_name_from_globals (annotations.py:176) / _DefaultContext.get_name (:933): the globals handed to
+\* Context.get_name_from_globals (annotations.py:177) / _DefaultContext.get_name (:949): the globals handed to
 \* the route; nothing found -> handle_undefined_name (:169): Any[inference] while a ForwardRef object is being
-\* evaluated (suppress_undefined_names, :512), Any[error] otherwise.  The visitor's context resolves through
-\* the visitor's scopes (resolve_name), which yields Any[error] either way.
+\* evaluated (suppress_undefined_names, :514), Any[error] otherwise.  The visitor's context resolves through
+\* the visitor's scopes (name_check_visitor.py:1663 resolve_name), which yields Any[error] either way.
 ImplLookup(m, n, fl) ==
     IF CtxDefined(m, n) THEN CtxClass(m, n)
     ELSE IF BugFallbackAnyModule /\ \E m2 \in Modules : CtxDefined(m2, n)
@@ -170,8 +170,8 @@ CtxResolveOutside(e, m, fl) ==
     ELSE X(e.k, e.id, [i \in 1..Len(e.args) |-> CtxResolveOutside(e.args[i], m, fl)])
 
 RECURSIVE CtxSubstObj(_, _, _, _, _)
-\* a runtime object as the route reads it: names in ForwardRef objects (annotations.py:499-516) and in plain
-\* strings (:405) looked up in module m; cv = the value typing cached on the object's ForwardRef ("none" if
+\* a runtime object as the route reads it: names in ForwardRef objects (annotations.py:506-519) and in plain
+\* strings (:406) looked up in module m; cv = the value typing cached on the object's ForwardRef ("none" if
 \* unevaluated) -- the code under verification does not look at it
 CtxSubstObj(r, m, cv, fwdfl, strfl) ==
     CASE r.k = "fwd" ->
